@@ -492,6 +492,7 @@ func runC01(c *Ctx) {
 	c.Rule("C01-R3", "parse errors are routed to always-enabled Fatal problems", 7)
 	c.Rule("C01-R4", "syntax/for/template checks registered unconditionally, enabled by default, complete and >= Bug", 12)
 	c.Rule("C01-R5", "strict gate", 4)
+	defer c01DurationErrorsAreAlwaysReported(c, "C01-R4")
 	defer c01EveryFileIsRead(c, "C01-R3")
 
 	const rulefmt = "github.com/prometheus/prometheus/model/rulefmt"
